@@ -68,6 +68,8 @@ static void part_a(void)
 			}
 		}
 	for (c = 1; c <= 0x10ffff; c++) {
+		if ((c & 0x3fff) == 1)
+			nv_guard(120, "c17-hang", "the code points from U+%04X", c);
 		char buf[8];
 		int rw, rb;
 		if (c >= 0xd800 && c <= 0xdfff)
